@@ -54,6 +54,11 @@ CHECKS = {
          "Runs the real constructors over the complete grid (13 dtypes incl. all ints/uints/complex64, array / Python-scalar / NumPy-scalar operands in both positions, broadcastable and non-broadcastable shape pairs, every axis argument in [-ndim-1, ndim+1], all int indices and a slice grid on axis lengths 0..6, reshape/einsum/stack error cases) and reads .shape/.dtype immediately. NumPy-ok/pytato-ok pairs must agree; a NumPy shape/axis/index error that pytato accepts (or only reports on .shape access) is a violation; pytato being stricter is allowed. Deviations are keyed per grid cell (function, operand kinds, dtype classes) so a known cell never hides a new one.",
          "The installed NumPy's promotion rules are the reference. Shapes with more than 3 axes / lengths > 6 are only covered through the random programs.",
          "DESIGN.md §3 C03"),
+ "C04": ("exploration",
+         "reflective one-field mutation monitor over a node-kind-complete graph corpus: ==, !=, hash and dict membership observed for rebuilt copies, every (node kind, field) mutant and its ancestors (congruence), law triples, in-process and cross-process (other hash seed) pickle round trips",
+         "Every dataclass field of every node kind (incl. named results, traced calls, loopy calls, CSR, send/recv) is mutated reflectively in several graph contexts; the mutant must be unequal in both directions at the node and at every ancestor, rebuilt copies and mapping-order variants must be equal with equal hashes, unpickled graphs in a fresh interpreter with another PYTHONHASHSEED must equal the graph rebuilt there, hash equally and carry no cached _hash_value.",
+         "non_equality_tags (documented) and the derived tags/axes of NamedCallResult are exempt. loopy's TranslationUnit hash is trusted base (it is not stable across pickling; attributed, not reported).",
+         "DESIGN.md §3 C04"),
 }
 
 NOT_YET = {
